@@ -206,6 +206,15 @@ def gen_names(ctx):
         read_name(bytes(rng.choice([0, 1, 2, 3, 0xC0, 0xC0, 0xC1, 0x40, 0x80, rng.getrandbits(8)]) for _ in range(n)),
                   rng.randrange(0, n + 1))
 
+    # Name.String (the cache key): labels with dots, backslashes, escapes spelled out, every byte class
+    specials = [b".", b"\\", b"\\x2e", b"x2e", b"a.b", b"a\\x2eb", b"-", b"0", b"9", b"A", b"Z", b"a", b"z", b"/", b":", b"@", b"[", b"`", b"{",
+                bytes([0]), bytes([0x7f]), bytes([0x80]), bytes([0xff]), b""]
+    for _ in range(40 if quick else 600):
+        n = [rng.choice(specials + [rlabel(rng, rng.randrange(0, 6))]) for _ in range(rng.randrange(0, 5))]
+        out.append(Case("name_string", "dns", {"op": "name_string", "labels": hexl(n)}, n))
+    for b in (range(0, 256, 7) if quick else range(256)):
+        out.append(Case("name_string", "dns", {"op": "name_string", "labels": hexl([bytes([b])])}, [bytes([b])]))
+
     # TrimSuffix
     def flipcase(l):
         return bytes((c ^ 0x20) if (65 <= (c & ~0x20) <= 90 and rng.random() < 0.5) else c for c in l)
@@ -356,7 +365,7 @@ def gen_msg(ctx):
     m["ar"].append({"name": [], "type": 41, "class": 4096, "ttl": 0, "data": "", "dseed": 0, "dgen": 0})
     add(m)
     # offsets beyond 0x3fff: a large record in front, repeated names after it
-    for big in ([16383 - 40, 16400] if quick else [16383 - 40, 16383 - 30, 16383 - 20, 16384, 16400, 40000]):
+    for big in ([16383 - 40, 16383 - 25, 16383 - 12, 16400] if quick else [16383 - 40, 16383 - 30, 16383 - 20, 16384, 16400, 40000]):
         for _ in range(1 if quick else 6):
             m = empty_msg(rng)
             early = pname(rng, 4) or [b"early"]
@@ -686,6 +695,12 @@ def post_trim(ctx, c):
     return "CTrim %s %s %s %s" % (gname(n), gname(suf), gbool(r["ok"]), gname(pre))
 
 
+def post_name_string(ctx, c):
+    n, r = c.aux, c.res
+    ctx.count(("name_string", n), kind="name_string")
+    return "CNameStr %s %s" % (gname(n), hexs(bytes.fromhex(r["out"])))
+
+
 def post_chunks(ctx, c):
     (d, k), r = c.aux, c.res
     ch = unhexl(r.get("chunks"))
@@ -841,7 +856,7 @@ def post_msg_rt(ctx, c):
                                       g_msg(r.get("msg") if r.get("ok2") else None, g_obs_rr))
 
 
-TERMS = {"exchange": post_exchange, "query": post_query, "msg_rt": post_msg_rt, "msg_dec": post_msg_dec, "anypb": post_any, "obf": post_obf, "reveal": post_reveal, "fmt": post_fmt, "name_rt": post_name_rt, "read_name": post_read_name, "trim": post_trim,
+TERMS = {"name_string": post_name_string, "exchange": post_exchange, "query": post_query, "msg_rt": post_msg_rt, "msg_dec": post_msg_dec, "anypb": post_any, "obf": post_obf, "reveal": post_reveal, "fmt": post_fmt, "name_rt": post_name_rt, "read_name": post_read_name, "trim": post_trim,
          "chunks": post_chunks, "b32": post_b32}
 
 
@@ -969,7 +984,7 @@ def run(ctx):
                        "rem_resp/err", "dec_txt/ok", "dec_txt/err",
                        "name_rt/ok", "name_rt/zero", "name_rt/labellong", "name_rt/namelong",
                        "read_name/ok", "read_name/eof", "read_name/reserved", "read_name/ptrs", "read_name/namelong",
-                       "trim/ok", "trim/no", "chunks/63", "b32", "send/ok", "send/err",
+                       "trim/ok", "trim/no", "name_string", "chunks/63", "b32", "send/ok", "send/err",
                        "obf/xor/ok", "obf/xor/err", "obf/nil/ok", "obf/ctr/ok", "obf/ctr/err", "obf/gcm/ok", "obf/gcm/err",
                        "reveal/xor/ok", "reveal/xor/err", "reveal/ctr/ok", "reveal/ctr/err", "reveal/gcm/err", "reveal/nil/ok",
                        "msg_rt/ok", "msg_rt/overflow", "msg_rt/panic", "msg_rt/undecodable:namelong",
